@@ -256,6 +256,31 @@ static int realCall(int un, const char* c, U32* res) {
 #undef q
 }
 
+/* ---- descriptor-table invariant, observed on the REAL table after every call (WASIOPS_TABLECHECK=1):
+ *   stale:<n>     entry n stores a native descriptor that is not open
+ *   alias:<m>,<n> two live entries store the same native descriptor
+ *   retarget:<n>  the open file behind entry n changed although n was not closed
+ * (what a descriptor denotes may change only by its own fd_close; distinct live descriptors never
+ * share a native open file).  Reported as ` !<what>` tokens appended to the result line. */
+#define TC_MAX 256
+static struct { int seen; dev_t dev; ino_t ino; } tcId[TC_MAX];
+static void tableCheck(void) {
+    U32 i, j;
+    WasiFileDescriptor d[TC_MAX]; int live[TC_MAX];
+    for (i = 0; i < TC_MAX; i++) {
+        live[i] = wasiFileDescriptorGet(i, &d[i]) ? 1 : 0;
+        if (!live[i] || d[i].fd < 0) { tcId[i].seen = 0; continue; }
+        {
+            struct stat st;
+            if (fstat(d[i].fd, &st) != 0) { fprintf(out, " !stale:%u", i); continue; }
+            if (!tcId[i].seen) { tcId[i].seen = 1; tcId[i].dev = st.st_dev; tcId[i].ino = st.st_ino; }
+            else if (tcId[i].dev != st.st_dev || tcId[i].ino != st.st_ino) fprintf(out, " !retarget:%u", i);
+        }
+        for (j = 0; j < i; j++)
+            if (live[j] && d[j].fd >= 0 && d[j].fd == d[i].fd) fprintf(out, " !alias:%u,%u", j, i);
+    }
+}
+
 /* ------------------------------------------------------------------ twin mode (raw POSIX) */
 
 #define TW_MAX 4096
@@ -396,6 +421,7 @@ static int twinCall(int un, const char* c, U32* res) {
 static void runHistory(char** lines, int n, int twin, int outfd) {
     char root[64];
     int i, fd;
+    int tablecheck = getenv("WASIOPS_TABLECHECK") != NULL;
     snprintf(root, sizeof root, "h-%d", (int)getpid());
     if (mkdir(root, 0755) != 0 || chdir(root) != 0) _exit(97);
     if (mkdir("sb", 0755) != 0) _exit(97);
@@ -442,6 +468,7 @@ static void runHistory(char** lines, int n, int twin, int outfd) {
             if (!ok) { if (twin) fprintf(out, "r skip"); else fprintf(out, "err unknown-call"); }
             else fprintf(out, "r %u", res);
             printDiff();
+            if (!twin && tablecheck) tableCheck();
             fprintf(out, "\n");
         } else fprintf(out, "err unknown-command\n");
         fflush(out);
